@@ -2,17 +2,11 @@
 """Regenerate MANIFEST.json from the table below (single source of truth for claimed checks)."""
 import json
 
-CLAIMED = {
- "C01": ("For each renderer (block, kitty LINES/WHOLE, iterm2 LINES/WHOLE/ANIM x konsole/other) a Lean theorem over every payload/pixel content, size, flag combination and every terminal state in which the w x h block fits: the render's tokens change only cells of the block, cover every cell, do not scroll or wrap, end on the last line at min(x+w, W-1), attributes reset (text) / untouched (graphics); tied to the code by byte-exact correspondence of the real render strings with the model's serialisation and by regenerated control-sequence templates",
-         "terminal model TIV.Common.Term is a definition (trusted); Pillow/zlib/PNG outside the model; parser theorem (bytes -> tokens) pending, the strict tokenizer checks completeness of every control sequence on each real render",
-         "Lean 4 proof (per-line contract LineOK + composition theorem render_block) + differential correspondence + terminal-model oracle"),
- "C02": ("Lean theorems over every pixel row/grid, alpha class, terminal background, kitty workaround and split-cells setting: the run-length renderer prints one cell per pixel pair and each cell shows exactly `want` (line_shows, linear; render_shows, on the terminal model at any fitting position); tied to the code by byte-exact correspondence on the pixel lists the real _get_render_data returned",
-         "Pillow convert/resize/alpha_composite are outside the model (oracle compares against Pillow independently); round(alpha*255) evaluated by CPython",
-         "Lean 4 proof (induction over the pixel row / the rows) + differential correspondence + Pillow-independent oracle"),
- "C03": ("Lean theorems over every payload and size: get_chunks' look-ahead loop refines 'cut into pieces, flag all but the last'; chunk size / multiple-of-4 / m-flag laws at the generated default size; base64 round trip; tied to the code by regenerated constants and a byte-exact correspondence of Transmission output",
-         "zlib/PNG/Pillow are parameters (partial)",
-         "Lean 4 proof (refinement + induction) with translator for constants and differential correspondence"),
-}
+import glob, os
+CLAIMED = {}
+for f in sorted(glob.glob('/verif/claims/C*.json')):
+    j = json.load(open(f))
+    CLAIMED[os.path.basename(f)[:-5]] = (j["text"], j["note"], j["technique"])
 
 def main():
     props = [json.loads(l) for l in open('/verif/properties.jsonl')]
